@@ -146,7 +146,7 @@ def evaluate(case) -> Verdict:
         want = _expected_texts(chosen, extra)
         norm = lambda s: s  # noqa: E731
 
-    o = oc.outcome_of(lambda: env.from_string(src).render(**data))
+    o = oc.render(case, lambda: env.from_string(src), **data)
     pct = "stray-percent" if re.search(r"%(?!\(\w+\)s)", msg + (plural or "")) else "plain"
     if o[0] != "ok":
         v.fail(f"{kind}:raises:{o[1]}:{pct}", f"{src!r} with {data!r:.120} -> {oc.short(o)}")
